@@ -43,7 +43,7 @@ fn sort_order_k(k: usize) {
     let c: [u32; N] = [kani::any(), kani::any(), kani::any(), kani::any()];
     kani::assume(is_perm(&c) && respects(&c, &ord, k));
     assert!(inversions(&t) <= inversions(&c), "C08: unnamed variables are placed so that the number of adjacent level swaps is minimal");
-    kani::cover!(inversions(&t) >= 2, "non-trivial reordering");
+    kani::cover!(k < 2 || inversions(&t) >= 2, "non-trivial reordering (needs at least two named levels)");
     std::mem::forget(r);
 }
 #[kani::proof]
@@ -87,6 +87,6 @@ fn bubble_sort_4() {
     let log = LOG.load(Relaxed);
     macro_rules! st { ($k:expr) => { if $k < n { let i = ((log >> (2 * $k)) & 3) as usize; rep.swap(i, (i + 1).min(N - 1)); } } }
     st!(0); st!(1); st!(2); st!(3); st!(4); st!(5);
-    assert!(rep == seq, "C08: the swap callback is invoked for exactly the swaps applied");
+    assert!(rep[0] == seq[0] && rep[1] == seq[1] && rep[2] == seq[2] && rep[3] == seq[3], "C08: the swap callback is invoked for exactly the swaps applied");
     kani::cover!(n == 6, "reversal needs six swaps");
 }
